@@ -216,3 +216,30 @@ class Check:
             self.pid, self.tier, cov["states"], cov["transitions"], cov["evaluations"], cov["traces_validated_against_impl"],
             time.time() - self.t0))
         return 0
+
+
+def validate_trace(ck, module, cfg, trace, n_traces, key, recorder_args=None, env=None, timeout=1500, xmx="8g"):
+    """Direction B: run the Trace_* spec over a recorded NDJSON trace; a rejection or an invariant
+    violated on the implementation's run is a violation with key `key`."""
+    e = {"TRACE": trace}
+    if env:
+        e.update(env)
+    r = tlc(module, cfg, ck.work, env=e, trace_mode=True, timeout=timeout, xmx=xmx)
+    ck.add_tlc(r, "trace validation")
+    if r["timeout"]:
+        raise ToolError("trace validation %s timed out" % module)
+    if r["ok"]:
+        ck.cov["traces_validated_against_impl"] += n_traces
+        return True
+    out = r["out"]
+    if r["rejected"]:
+        i = out.find("TRACE-REJECTED")
+        j = out.rfind("<<", 0, i)
+        ck.violation(key, {"trace": trace, "recorder": recorder_args}, " ".join(out[j:i + 700].split()))
+        return False
+    if "is violated" in out:
+        line = [x for x in out.splitlines() if "is violated" in x][0]
+        ck.violation(key, {"trace": trace, "recorder": recorder_args}, line.strip())
+        return False
+    sys.stderr.write(out[-3000:])
+    raise ToolError("trace validation %s failed to run" % module)
